@@ -19,30 +19,42 @@ theorem hystrix_opens_iff (n : Nat) (dur pct vol : Int) (hn : 0 < n) (hw : 0 < t
     (hmono : monotone (.should t :: ops.reverse) = true) :
     (ostep (oexec (.hystrix (HOpener.new n dur pct vol)) ops) (.should t)).2
       = some (hystrixShould n (tdiv dur n) pct vol ops.reverse t) := by
-  sorry
+  obtain ⟨o', e, I⟩ := HInv.exec hn ops _ [] (HInv.new n dur pct vol hn)
+  rw [List.append_nil] at I
+  have hm : (decide (0 ≤ t) && (ops.reverse.all fun o => match o.time with | some t' => decide (t' ≤ t) | none => true)
+      && monotone ops.reverse) = true := hmono
+  rw [Bool.and_eq_true, Bool.and_eq_true, decide_eq_true_iff] at hm
+  rw [e]
+  show some (o'.shouldOpen t).2 = _
+  rw [I.answer hn t hm.1.1 (ohi_le_of_all hw t _ hm.1.2)]
 
 /-- CONSECUTIVE.  For every threshold (live changes included) and every history, in any timestamp order: ShouldOpen
     iff the outcomes since the last success or transition that count (failures, timeouts) number ≥ ErrorThreshold. -/
 theorem consecutive_opens_iff (thr : Int) (ops : List OOp) (t : Int) :
     (ostep (oexec (.consec { threshold := thr }) ops) (.should t)).2 = some (consecShould thr ops.reverse) := by
-  sorry
+  have e := consec_exec thr ops []
+  rw [List.append_nil] at e
+  show (ostep (oexec (.consec { count := trailingErrors (sinceTransition []), threshold := consecThreshold thr [] }) ops)
+    (.should t)).2 = _
+  rw [e]
+  rfl
 
 /-- bad requests, caller interrupts, short-circuits and concurrency rejections never move either opener -/
 theorem neutral_events_inert_hystrix (o : HOpener) (k : Kind) (t : Int)
     (hk : k = .badRequest ∨ k = .interrupt ∨ k = .shortCircuit ∨ k = .reject) :
     ostep (.hystrix o) (.ev k t) = (.hystrix o, none) := by
-  sorry
+  rcases hk with rfl | rfl | rfl | rfl <;> rfl
 theorem neutral_events_inert_consec (o : ConsecOpener) (k : Kind) (t : Int)
     (hk : k = .badRequest ∨ k = .interrupt ∨ k = .shortCircuit ∨ k = .reject) :
     ostep (.consec o) (.ev k t) = (.consec o, none) := by
-  sorry
+  rcases hk with rfl | rfl | rfl | rfl <;> rfl
 
 /-- the spec side of "never move in either direction": neutral kinds change no answer of the specification -/
 theorem neutral_events_inert_spec (n : Nat) (w pct vol thr : Int) (h : List OOp) (k : Kind) (t t' : Int)
     (hk : k = .badRequest ∨ k = .interrupt ∨ k = .shortCircuit ∨ k = .reject) :
     hystrixShould n w pct vol (.ev k t :: h) t' = hystrixShould n w pct vol h t' ∧
     consecShould thr (.ev k t :: h) = consecShould thr h := by
-  sorry
+  rcases hk with rfl | rfl | rfl | rfl <;> exact ⟨rfl, rfl⟩
 
 /-- CIRCUIT LEVEL, every opener: a closed, not-overridden circuit opens at the completion of a call exactly when
     the call is classified failure or timeout and the opener — having been told of it — says ShouldOpen.
@@ -58,7 +70,7 @@ theorem opens_iff_opener_says_so {σo σc : Type} (O : OpenerI σo) (C : CloserI
     let total := sc.adv + 1
     (r.1.isOpen = true ↔ ((k = .failure ∨ k = .timeout) ∧ (O.shouldOpen (O.onRun c.opener k doneT total) doneT).2 = true)) ∧
     (r.1.isOpen = true → Emit.opened doneT ∈ r.2.1.emits) := by
-  sorry
+  exact opens_core O C c op sc hen hfo hfc hclosed hrun hnp hpv hthr
 
 /-- non-vacuity / the old defect's inputs: 57 errors of 100 at 57 %, 29 of 100 at 29 % open -/
 example : (ostep (oexec (.hystrix (HOpener.new 5 50 29 100))
